@@ -90,13 +90,13 @@ theorem C11.partition_close_complete (st st' : St) (line : Nat) (name : Str) (pr
     (∀ b ∈ hv, b = true) ∧ (patches.map List.length).sum = ne :=
   ⟨(closeTop_partition_flags hs h).1, (closeTop_partition_flags hs h).2.1⟩
 
-/-- an accepted root mesh and every accepted part with its own `topology="full"` have no entity count of zero directly
-    below a non-zero one (`deductNames text` = the `topology="parent"` parts, for which the reader does not check it) -/
+/-- an accepted root mesh and every accepted part with a topology (`full` or `parent`, former finding K12) have no
+    entity count of zero directly below a non-zero one -/
 theorem C11.parser_sizes_no_zero_below (text : Str) (sh : Shape) (dim : Nat) (n : Node)
     (h : parseMeshFile text = .ok sh dim n) :
     (∀ m, n.mesh = some m → zeroBelow m.sizes = false) ∧
-    (∀ np ∈ n.parts, np.1 ∉ deductNames text → np.2.hasTopo = true → zeroBelow np.2.sizes = false) :=
-  ⟨fun _ hm => parseMeshFile_sizes_no_zero_below h hm, parseMeshFile_parts_no_zero_below h⟩
+    (∀ np ∈ n.parts, np.2.hasTopo = true → zeroBelow np.2.sizes = false) :=
+  ⟨fun _ hm => parseMeshFile_sizes_no_zero_below h hm, parseMeshFile_parts_no_zero_below_all h⟩
 
 /-- `topology="parent"`: the deduced topology is the restriction of the parent's index sets - every deduced index is a
     position in the part's vertex mapping that maps back to the parent's vertex of that cell -/
@@ -140,24 +140,21 @@ theorem C11.parse_total (text : Str) :
 
 /-- The round-trip statement in closed form, for every input text: whatever the parser returns for a file with a
     root mesh is reproduced exactly by parsing its written form (`parse ∘ print ∘ parse = parse`).
-    `_partial` since charts and parent topology entered the model: proved for results without charts (`hc`) and files
-    without `topology="parent"` parts (`hd`); with parent parts `FeatModel.C11.parse_print_parse` needs in addition
-    that the deduced parts have no entity count of zero below a non-zero one (the reader does not check that for
-    parent parts, the writer prints them as `topology="full"`: finding K12). Charts are covered for explicitly given
+    Covers files with `topology="parent"` parts (the deduced topology is written as `topology="full"` and read back).
+    `_partial`: proved for results without charts (`hc`); charts are covered for explicitly given
     nodes by `C11.parse_print_node_charts_partial`. -/
 theorem C11.parse_print_parse_partial (text : Str) (sh : Shape) (dim : Nat) (n : Node)
-    (h : parseMeshFile text = .ok sh dim n) (hm : n.mesh.isSome) (hc : n.charts = [])
-    (hd : deductNames text = []) :
+    (h : parseMeshFile text = .ok sh dim n) (hm : n.mesh.isSome) (hc : n.charts = []) :
     parseMeshFile (printMeshFile sh dim n) = .ok sh dim n :=
-  parse_print_parse_noparent text sh dim n h hm hc hd
+  parse_print_parse_nocharts text sh dim n h hm hc
 
 /-- byte-for-byte clause in closed form: writing the re-parsed node reproduces the first output -/
 theorem C11.print_parse_print_parse_partial (text : Str) (sh : Shape) (dim : Nat) (n : Node)
     (h : parseMeshFile text = .ok sh dim n) (hm : n.mesh.isSome) (hc : n.charts = [])
-    (hd : deductNames text = []) (sh' : Shape) (dim' : Nat) (n' : Node)
+    (sh' : Shape) (dim' : Nat) (n' : Node)
     (h' : parseMeshFile (printMeshFile sh dim n) = .ok sh' dim' n') :
     printMeshFile sh' dim' n' = printMeshFile sh dim n := by
-  rw [parse_print_parse_noparent text sh dim n h hm hc hd] at h'
+  rw [parse_print_parse_nocharts text sh dim n h hm hc] at h'
   cases h'
   rfl
 
